@@ -64,7 +64,8 @@ PROPS = {
     },
     'C13': {
         'modules': ['contracts.C13_multipart'],
-        'deps': [{'module': 'contracts.C14_readers', 'prop': 'C14', 'filters': ['peek', 'read_until', 'pipe_until', 'delimit', '.read[', '_read[', 'exhaust']}],
+        'deps': [{'module': 'contracts.C14_readers', 'prop': 'C14', 'filters': ['peek', 'read_until', 'pipe_until', 'delimit', '.read[', '_read[', 'exhaust']},
+                 {'module': 'contracts.C15_headers', 'prop': 'C15', 'filters': ['secure_filename_alphabet']}],
         'level': 'proof',
         'level_text': 'Multipart limits exactly at their thresholds (buffered part size: raises iff content > max, on every call; part count: loop invariant '
                       'remaining == max - parts yielded, 0 = unlimited; header block read with the configured cap), error mapping (only MultipartParseError leaves '
